@@ -35,6 +35,7 @@ def _tiefree(draw, max_size=12):
             pos[-1], neg[0] = neg[0], pos[-1]
     ez = st.one_of(st.just(0), st.just(0), st.integers(1, 5), st.integers(6, 200))
     return dict(kpos=list(pos), kneg=list(neg), a=a, b=b, ep=draw(ez), en=draw(ez), arr=arr,
+                centre=draw(st.sampled_from([None, None, "gap", "all"])),
                 a2=draw(st.sampled_from([0.5, 2.0, 3.0, 0.1, 7.3, 1e-4, 1e-7, 1e4])),
                 b2=draw(st.floats(min_value=-50, max_value=50)))
 
@@ -50,6 +51,18 @@ def check_crossing(case):
     a, b = case["a"], case["b"]
     pos = [a * k + b for k in case["kpos"]]
     neg = [a * k + b for k in case["kneg"]]
+    if case.get("centre"):
+        # translate so that a derived quantity is exactly 0: the midpoint between the innermost
+        # samples of the two classes ("gap"), or the midpoint of the whole score range ("all")
+        if case["centre"] == "gap":
+            cands = [(min(pos), max(neg)), (max(pos), min(neg))]
+            lo_, hi_ = min(cands, key=lambda c: abs(c[0] - c[1]))
+            mid = (lo_ + hi_) / 2
+        else:
+            mid = (min(pos + neg) + max(pos + neg)) / 2
+        npos, nneg = [x - mid for x in pos], [x - mid for x in neg]
+        if len(set(npos + nneg)) == len(pos + neg):
+            pos, neg = npos, nneg
     ep, en = case["ep"], case["en"]
     P, Nn = len(pos) + ep, len(neg) + en
     rng = max(pos + neg) - min(pos + neg) + a
